@@ -137,6 +137,12 @@ func (e *C03) Run(ctx *core.Ctx, idx int) {
 		reps = 24
 	}
 	withCleanup := ctx.Rand.Intn(4) == 0
+	// nodes the selector matches but the daemonset does not target (unfit, or reserved for a canary):
+	// present in NodeByName only; percentages are resolved against the targeted nodes
+	untargeted := []int{0, 0, n, 2*n + 1}[ctx.Rand.Intn(4)]
+	if untargeted > 0 {
+		ctx.Count("C03.cases-with-untargeted-nodes")
+	}
 	key := fmt.Sprintf("%v|%s|%s", cnt, mu.String(), mpsf.String())
 	if cnt[clsOldA] > 0 {
 		ctx.Distinct("nontrivial", key)
@@ -147,7 +153,7 @@ func (e *C03) Run(ctx *core.Ctx, idx int) {
 	}
 	deleteSets := map[string]bool{}
 	for rep := 0; rep < reps; rep++ {
-		ds, ok := e.one(ctx, cnt, n, mu, mpsf, withCleanup, rep == 0)
+		ds, ok := e.one(ctx, cnt, n, untargeted, mu, mpsf, withCleanup, rep == 0)
 		if !ok {
 			return
 		}
@@ -164,7 +170,7 @@ func (e *C03) Run(ctx *core.Ctx, idx int) {
 const hashOK = "HASH-CURRENT"
 
 // one runs ManageDeployment once; returns the delete set signature.
-func (e *C03) one(ctx *core.Ctx, cnt []int, n int, mu, mpsf intstr.IntOrString, withCleanup, sample bool) (string, bool) {
+func (e *C03) one(ctx *core.Ctx, cnt []int, n, untargeted int, mu, mpsf intstr.IntOrString, withCleanup, sample bool) (string, bool) {
 	t0 := kit.T0
 	simapi.SetNow(t0)
 	s := simapi.NewStore()
@@ -215,6 +221,10 @@ func (e *C03) one(ctx *core.Ctx, cnt []int, n int, mu, mpsf intstr.IntOrString, 
 			podCls[pod.Name] = k
 			params.PodByNodeName[ni] = pod
 		}
+	}
+	for j := 0; j < untargeted; j++ {
+		name := fmt.Sprintf("untargeted%d", j)
+		params.NodeByName[name] = strategy.NewNodeItem(&corev1.Node{ObjectMeta: metav1.ObjectMeta{Name: name}}, nil)
 	}
 	nCleanup := 0
 	if withCleanup {
@@ -279,7 +289,7 @@ func (e *C03) one(ctx *core.Ctx, cnt []int, n int, mu, mpsf intstr.IntOrString, 
 	if len(res.PodsToDelete) > 0 {
 		ctx.Count("C03.calls-deleting")
 	}
-	desc := map[string]any{"classes": clsDesc(cnt), "maxUnavailable": mu.String(), "maxPodSchedulerFailure": mpsf.String(), "N": n, "MU": MU, "U": U,
+	desc := map[string]any{"classes": clsDesc(cnt), "maxUnavailable": mu.String(), "maxPodSchedulerFailure": mpsf.String(), "N": n, "untargetedNodes": untargeted, "MU": MU, "U": U,
 		"allowedAvailableDeletes": allowed, "deletedAvailable": dAvail, "deletedUnavailable": dUn, "deleted": names}
 	if sample && cnt[clsOldA] > 0 && cnt[clsOldU] > 0 {
 		ctx.Sample(desc)
